@@ -115,6 +115,9 @@ func vfc08RunFixture(t *testing.T, r *vfkit.Run, c int, rng *rand.Rand, nReq int
 			vfc08Check(r, c, fx, st, req, ms, replica)
 		}
 	}
+	// PrometheusStore over a fake Prometheus (sampled and streamed remote read, series API); drawn after
+	// everything else so the request stream of the two stores above is unchanged
+	vfc08RunPromStore(t, r, c, rng, fx, nReq)
 }
 
 func vfc08Check(r *vfkit.Run, c int, fx *vfc07Fixture, st vfc08Store, req *storepb.SeriesRequest, ms []vfc07M, replica []string) {
